@@ -1726,6 +1726,9 @@ func (p *Parser) parseMapOrSet() ast.Node {
 			}
 			key, value := p.parseKeyValue()
 			if key == nil || value == nil {
+				if p.err == nil {
+					p.setTokenError(p.curToken, "invalid syntax in map expression")
+				}
 				return nil
 			}
 			pairs[key] = value
@@ -1743,6 +1746,13 @@ func (p *Parser) parseMapOrSet() ast.Node {
 		}
 		return ast.NewMap(firstToken, pairs)
 	} else { // This is a set
+		if firstKey == nil {
+			// e.g. a nested map or set literal that failed to parse
+			if p.err == nil {
+				p.setTokenError(p.peekToken, "invalid syntax in set expression")
+			}
+			return nil
+		}
 		items := []ast.Expression{firstKey}
 		if p.peekTokenIs(token.COMMA) {
 			p.nextToken()
